@@ -961,5 +961,5 @@ func c12KGen(t *rapid.T) c12KCase {
 
 func init() {
 	rule := "non-trivial = CheckKeys case with a decodable response (all of them); fetcher case in which the scripted client served at least one decodable key response that the fetcher had to accept or refuse (keys returned, or a direct/notary/perspective response was judged for completeness). distinct = distinct Case JSON."
-	vfRapid("C12/checkkeys", rule, 3000, 100000, 16, c12KGen, c12KCheck)
+	vfRapid("C12/checkkeys", rule, 5000, 200000, 16, c12KGen, c12KCheck)
 }
